@@ -422,6 +422,14 @@ func (r *runner) evaluate(pl *plan, o outcome) {
 	}
 
 	// (ii) result class
+	tag := ""
+	if e.StageTag != "" {
+		tag = "/stagefilter=" + e.StageTag
+		t.Count("predpipe/"+e.StageTag, 1)
+		if e.Stage == e.BombStage && len(e.Stages) > 1 {
+			t.Count("predpipe_first_stage_over_limit_is_the_bomb_stage", 1)
+		}
+	}
 	want := e.Want
 	decStep := ""
 	if e.DecKey != "" && (want == "limit") && e.Limit == "MaxDecodeBytes" {
@@ -477,12 +485,12 @@ func (r *runner) evaluate(pl *plan, o outcome) {
 				break
 			}
 			if site == "streamdict" && len(e.Stages) > 1 {
-				t.Violate(fmt.Sprintf("limit=MaxDecodeBytes/site=streamdict/stages=%d/stage=%d/class=stage-unbounded", len(e.Stages), e.Stage),
+				t.Violate(fmt.Sprintf("limit=MaxDecodeBytes/site=streamdict/stages=%d/stage=%d%s/class=stage-unbounded", len(e.Stages), e.Stage, tag),
 					fmt.Sprintf("stage %d of %s produces %d bytes (all stages %v), MaxDecodeBytes is %d, and decoding succeeded: the stage is not bounded by the configured limit",
 						e.Stage, e.Pipe, e.Stages[e.Stage], e.Stages, e.LimitV), r.replayCase(c, &o, "accepted"))
 				break
 			}
-			t.Violate(fmt.Sprintf("limit=%s/site=%s/step=%s/class=bomb-accepted", e.Limit, site, stepName()),
+			t.Violate(fmt.Sprintf("limit=%s/site=%s/step=%s%s/class=bomb-accepted", e.Limit, site, stepName(), tag),
 				fmt.Sprintf("%s=%d, the input carries %d (%s %s, stages %v) and %s via %s succeeded without a limit error (container %s, decodeAll=%v, strict=%v)",
 					e.Limit, e.LimitV, e.Value, e.Pipe, e.Rel, e.Stages, c.Entry, c.Via, c.Container, c.DecodeAll, c.Strict), r.replayCase(c, &o, "accepted"))
 		case !hasAny(fs.Classes, e.Classes) && site == "xrefstm":
@@ -492,7 +500,7 @@ func (r *runner) evaluate(pl *plan, o outcome) {
 			// refused and nothing above the limit exists; counted, not judged.
 			t.Count("xref_stream_limit_error_replaced_by_error_of_table_rebuild", 1)
 		case !hasAny(fs.Classes, e.Classes):
-			t.Violate(fmt.Sprintf("limit=%s/site=%s/step=%s/class=wrong-error", e.Limit, site, fs.Name),
+			t.Violate(fmt.Sprintf("limit=%s/site=%s/step=%s%s/class=wrong-error", e.Limit, site, fs.Name, tag),
 				fmt.Sprintf("%s=%d, the input carries %d (%s %s): %s failed, but not with the documented limit error %v: %s %s",
 					e.Limit, e.LimitV, e.Value, e.Pipe, e.Rel, fs.Name, e.Classes, fs.Err, fs.Panic), r.replayCase(c, &o, "error class"))
 		default:
@@ -636,7 +644,7 @@ func (r *runner) runPlan(lp **launcher, pl *plan) {
 
 func run(t *vk.T) {
 	api.DisableConfigDir()
-	t.Rule("cases = strata of {stream-level pipelines, bombs inside documents by site/entry point/container, raw stream lengths, xref and object stream counts, nesting depth, image dimensions, default limits} x limit x relation to the limit (below/at/+1/above/big); a case is distinct by (family, site, pipeline, relation, entry point, route, container, limit value, decodeAllStreams, validation mode)")
+	t.Rule("cases = strata of {stream-level pipelines, bombs inside documents by site/entry point/container, raw stream lengths, xref and object stream counts, nesting depth, image dimensions, default limits, predictor pipelines = {Flate, LZW EarlyChange 1, LZW EarlyChange 0} x {no predictor, TIFF 2, PNG 10-15} x position of the expanding stage in a pipeline of 1-3 stages x {DecodeWithLimit, DecodeLengthWithLimit, content, image, metadata, object stream, xref stream} plus huge /Columns} x limit x relation to the limit (below/at/+1/above/big); a case is distinct by (family, site, pipeline, relation, entry point, route, container, limit value, decodeAllStreams, validation mode)")
 	t.Assume("memory bound: peak RSS of the child minus the RSS of a child processing an empty document <= 6 x (MaxDecodeBytes + MaxStreamBytes [+ MaxImageBytes for image extraction] + input size) + 64 MiB; the constants 6 and 64 MiB are chosen, not derived")
 	t.Assume("ru_maxrss comes from wait4 in a small launcher process that forks the case child (on Linux ru_maxrss of an exec'ed child starts at the resident set of the process that forked it, so the child is not forked from the parent that builds the inputs); VmHWM reported by the child itself is the cross-check and the verdict uses the smaller of the two")
 	t.Assume("the same bound is applied to the Go heap obtained from the OS (MemStats.HeapSys), which also sees allocations whose pages are never touched")
@@ -698,7 +706,7 @@ func run(t *vk.T) {
 	t.Extra("baseline_rss_kib", r.baseRSS)
 	t.Extra("baseline_heap_sys_bytes", r.baseHeap)
 
-	plans := allPlans(func(name string) *rand.Rand { return t.RNG("c09/" + name) }, !t.Quick())
+	plans := allPlans(func(name string) *rand.Rand { return t.RNG("c09/" + name) }, !t.Quick(), r.tab)
 	if t.Replay != nil {
 		var rc struct {
 			CaseIndex int `json:"case_index"`
